@@ -393,6 +393,33 @@ def run(prog: Program, ctx: Ctx) -> None:  # noqa: PLR0912,PLR0915
                        f"`{norm(c)}` can pass through an unresolvable alias; only {sorted(got) or 'nothing'} is caught, so load() itself raises", where(f, c))
     ctx.expect_min("R4", n_lookups, 4)
 
+    # setter stores: assigning to a property whose setter raises an alias error is a raising site as well
+    n_setter_sites = 0
+    for sname, setters in alias.methods.items():
+        for sf in [f for f in setters if f.is_setter]:
+            raised = set()
+            for r in walk_no_nested(sf.node):
+                if isinstance(r, ast.Raise) and r.exc is not None:
+                    nm = (dotted(r.exc.func) if isinstance(r.exc, ast.Call) else dotted(r.exc)) or unparse(r.exc)
+                    raised.add(nm.split(".")[-1])
+            raised &= AE
+            if not raised:
+                continue
+            for f in prog.functions.values():
+                if f.cls is alias or not f.module.name.startswith("_griffe."):
+                    continue
+                for st in walk_no_nested(f.node):
+                    targets = st.targets if isinstance(st, ast.Assign) else [st.target] if isinstance(st, (ast.AugAssign, ast.AnnAssign)) else []
+                    for t in targets:
+                        if isinstance(t, ast.Attribute) and t.attr == sname and dotted(t.value) != "self":
+                            n_setter_sites += 1
+                            got = enclosing_catch(st)
+                            ok = raised <= got or bool(got & CATCH_ALL)
+                            ctx.ob("R4", key(f, f"setter-store:{norm(t, 40)}"), ok,
+                                   f"`{norm(st, 60)}` runs Alias.{sname}'s setter, which raises {sorted(raised)}: " +
+                                   ("handled at the store" if ok else f"only {sorted(got) or 'nothing'} is handled here, the error escapes {f.name}"), where(f, st))
+    ctx.expect_min("R4", n_setter_sites, 1)
+
     # ------------------------------------------------------------------ R5 fixpoint loop frame
     ctx.rule("R5", "resolve_aliases iterates while something is unresolved, the unresolved set changed, and the iteration bound holds; "
                    "the previous set is taken from the current one at the top of each iteration; failed external loads are memoised")
